@@ -129,6 +129,14 @@ func (r *Result) Violate(key, what string, c any) {
 	r.Violations = append(r.Violations, Violation{Key: key, What: what, Case: raw})
 }
 
+// Flush prints the result so far as a RESULT line: if the worker dies later (a fatal runtime error cannot be
+// recovered), the driver still has everything found up to here (the last RESULT line of a worker wins).
+func (r *Result) Flush() {
+	if out, err := json.Marshal(r); err == nil {
+		os.Stdout.Write(append([]byte("RESULT "), append(out, '\n')...))
+	}
+}
+
 // Undecided marks the run as not exhaustive for a stated reason.
 func (r *Result) Undecided(reason string) {
 	r.Add("undecided", 1)
@@ -204,6 +212,9 @@ type Check struct {
 	Replay func(raw json.RawMessage) *Result
 	// Finish runs in the driver after merging (non-vacuity conditions, derived counters).
 	Finish func(tier string, merged *Result)
+	// CrashIsViolation: a worker that dies of a fatal runtime error (stack overflow, out of memory) is a violation
+	// of this property (C02: "the process cannot exhaust its stack"), reported with the shard as the case.
+	CrashIsViolation bool
 	// Bounds describes the bound explored per tier (goes into the evidence).
 	Bounds func(tier string) map[string]any
 }
@@ -381,6 +392,19 @@ func CheckMain(id, tier string) int {
 			}
 			mu.Lock()
 			defer mu.Unlock()
+			if err != nil && c.CrashIsViolation {
+				es := stderr.String()
+				for _, sig := range []string{"fatal error: stack overflow", "goroutine stack exceeds", "fatal error: out of memory", "runtime: out of memory"} {
+					if strings.Contains(es, sig) {
+						if res == nil {
+							res = NewResult()
+						}
+						res.Violate("worker-crash", fmt.Sprintf("worker %d/%d of the exploration died of a fatal runtime error while parsing (%s): %s", s, n, sig, firstLines(es, 2)),
+							map[string]any{"crashed_shard": s, "shards": n, "tier": tier, "seed": seed})
+						break
+					}
+				}
+			}
 			if res == nil {
 				tail := stderr.String()
 				if len(tail) > 1500 {
